@@ -143,7 +143,7 @@ def seq_of_value(ex, v, st, desc):
     """(Seq term, element type) of a list/tuple/str-free iterable value; sets/dicts are not sequences"""
     k = v.ty.kind
     if k == 'list':
-        return z3.Select(st.field('list'), S.addr(v.t)), v.ty.t
+        return st.sel('list', S.addr(v.t)), v.ty.t
     if k == 'tupleof':
         return S.items(v.t), v.ty.t
     if k == 'tuple':
@@ -152,9 +152,58 @@ def seq_of_value(ex, v, st, desc):
     raise Unsupported(f'sequence view of {v.ty}: {desc}')
 
 
+def quantified_genexpr(ex, e, st, name, desc):
+    """all(<elt> for x in <seq>) / any(...): a quantified formula over the index; <elt> must be effect-free"""
+    g = e.args[0]
+    if len(g.generators) != 1 or g.generators[0].ifs or g.generators[0].is_async:
+        raise Unsupported('generator shape: ' + desc)
+    gen = g.generators[0]
+    from . import loops
+    it = loops.make_iter(ex, gen.iter, st)
+    j = S.fresh('gj', z3.IntSort())
+    sub = st.copy()
+    base = len(sub.pc)
+    snap = ex._heap_snapshot(sub)
+    if it.seq is not None and it.kind in ('list', 'tuple'):
+        ety = it.elem(j, sub).ty
+        elemv = V(S.at(it.seq, j), ety)
+        sub.assume(S.has_type(elemv.t, ety, sub.next_ref))
+    else:
+        elemv = it.elem(j, sub)
+    ex.assign(gen.target, elemv, sub)
+    nvc = len(ex.vcs)
+    v = ex.ev(g.elt, sub)
+    t = ex.truth(v, sub)
+    if ex._heap_changed(sub, snap):
+        raise Unsupported('heap effect inside a generator expression: ' + desc)
+    # safety obligations raised inside the element expression hold for an arbitrary in-range index
+    for vc in ex.vcs[nvc:]:
+        vc.hyps = vc.hyps + [z3.And(j >= 0, j < it.n)]
+    extra = sub.pc[base:]
+    rng = z3.And(j >= 0, j < it.n)
+    pats = [S.at(it.seq, j)] if it.seq is not None and it.kind in ('list', 'tuple') else None
+    Q = z3.ForAll if name == 'all' else z3.Exists
+    body = z3.Implies(rng, t) if name == 'all' else z3.And(rng, t)
+
+    def mkq(quant, b):
+        if pats:
+            try:
+                return quant([j], b, patterns=pats)
+            except z3.Z3Exception:
+                pass
+        return quant([j], b)
+    q = mkq(Q, body)
+    if extra:
+        # facts the engine assumes while reading the element (typed-heap assumptions) hold for every in-range index
+        st.assume(mkq(z3.ForAll, z3.Implies(rng, z3.And(*extra))))
+    return V(S.mk_bool(q), S.Bool)
+
+
 def call_builtin(ex, e, st, name, desc):
     if name in ('print',):
         return val(st, none_v())
+    if name in ('all', 'any') and len(e.args) == 1 and isinstance(e.args[0], ast.GeneratorExp):
+        return val(st, quantified_genexpr(ex, e, st, name, desc))
     if name == 'isinstance' and len(e.args) == 2:
         a0 = ex.ev(e.args[0], st)
         return val(st, V(S.mk_bool(isinstance_formula(ex, a0, e.args[1], st)), S.Bool))
@@ -188,10 +237,10 @@ def call_builtin(ex, e, st, name, desc):
         if not args:
             dom, kt = z3.K(S.PyObj(), z3.BoolVal(False)), S.Any
         elif args[0].ty.kind in ('set', 'dict'):
-            dom, kt = z3.Select(st.field('dom'), S.addr(args[0].t)), args[0].ty.k
+            dom, kt = st.sel('dom', S.addr(args[0].t)), args[0].ty.k
         else:
             seq, kt = seq_of_value(ex, args[0], st, desc)
-            dom = z3.Lambda([x], z3.Contains(seq, z3.Unit(x)))
+            dom = z3.Lambda([x], S.member(seq, x))
         st.set_field('dom', z3.Store(st.field('dom'), S.addr(r), dom))
         return val(st, V(r, S.Set(kt)))
     if name == 'dict' and not args and not kwargs:
@@ -217,14 +266,14 @@ def call_builtin(ex, e, st, name, desc):
 
 def enum_of_dom(ex, v, st):
     """an arbitrary duplicate-free enumeration of the keys of a dict/set (fresh ghost sequence)"""
-    dom = z3.Select(st.field('dom'), S.addr(v.t))
+    dom = st.sel('dom', S.addr(v.t))
     seq = S.fresh('enum', S.SeqP())
     i, j = z3.Ints('ei ej')
     x = z3.Const('ex', S.PyObj())
-    st.assume(z3.ForAll([i], z3.Implies(z3.And(i >= 0, i < z3.Length(seq)), z3.Select(dom, seq[i])), patterns=[seq[i]]))
-    st.assume(z3.ForAll([i, j], z3.Implies(z3.And(i >= 0, i < j, j < z3.Length(seq)), seq[i] != seq[j]), patterns=[z3.MultiPattern(seq[i], seq[j])]))
-    st.assume(z3.ForAll([x], z3.Select(dom, x) == z3.Contains(seq, z3.Unit(x)),
-                        patterns=[z3.Select(dom, x), z3.Contains(seq, z3.Unit(x))]))
+    st.assume(z3.ForAll([i], z3.Implies(z3.And(i >= 0, i < z3.Length(seq)), z3.Select(dom, S.at(seq, i))), patterns=[S.at(seq, i)]))
+    st.assume(z3.ForAll([i, j], z3.Implies(z3.And(i >= 0, i < j, j < z3.Length(seq)), S.at(seq, i) != S.at(seq, j)), patterns=[z3.MultiPattern(S.at(seq, i), S.at(seq, j))]))
+    st.assume(z3.ForAll([x], z3.Select(dom, x) == S.member(seq, x),
+                        patterns=[z3.Select(dom, x), S.member(seq, x)]))
     return seq
 
 
@@ -232,7 +281,7 @@ def builtin_len(ex, v, st, desc):
     ty = ex.obj_class(v, st, desc)
     k = ty.kind
     if k == 'list':
-        return V(S.mk_int(z3.Length(z3.Select(st.field('list'), S.addr(v.t)))), S.Int)
+        return V(S.mk_int(z3.Length(st.sel('list', S.addr(v.t)))), S.Int)
     if k in ('tupleof', 'tuple'):
         return V(S.mk_int(z3.Length(S.items(v.t))), S.Int)
     if k == 'str':
@@ -240,7 +289,7 @@ def builtin_len(ex, v, st, desc):
     if k in ('dict', 'set'):
         ex.used_trusted.add('len(dict/set) as uninterpreted cardinality (>=0, ==0 iff empty)')
         card = z3.Function('card', z3.ArraySort(S.PyObj(), z3.BoolSort()), z3.IntSort())
-        dom = z3.Select(st.field('dom'), S.addr(v.t))
+        dom = st.sel('dom', S.addr(v.t))
         n = card(dom)
         x = z3.Const('cx', S.PyObj())
         st.assume(n >= 0)
@@ -320,7 +369,7 @@ def call_method(ex, e, st, recv, meth, desc):
 
 def list_method(ex, st, recv, ty, a, meth, args, kwargs, desc):
     h = st.field('list')
-    seq = z3.Select(h, a)
+    seq = st.sel('list', a)
     if meth == 'append' and len(args) == 1:
         ex.check_elem_type(st, args[0], ty.t, f'type:elem@{desc}')
         st.set_field('list', z3.Store(h, a, z3.Concat(seq, z3.Unit(args[0].t))))
@@ -339,11 +388,11 @@ def list_method(ex, st, recv, ty, a, meth, args, kwargs, desc):
         n = z3.Length(seq)
         if not args:
             ex.safety(st, 'IndexError', desc, n > 0)
-            t = seq[n - 1]
+            t = S.at(seq, n - 1)
             st.set_field('list', z3.Store(h, a, z3.Extract(seq, 0, n - 1)))
         else:
             i = ex.index_term(args[0], seq, st, desc)
-            t = seq[i]
+            t = S.at(seq, i)
             st.set_field('list', z3.Store(h, a, z3.Concat(z3.Extract(seq, 0, i), z3.Extract(seq, i + 1, n - i - 1))))
         st.assume(S.has_type(t, ty.t, st.next_ref))
         return V(t, ty.t)
@@ -359,7 +408,7 @@ def list_method(ex, st, recv, ty, a, meth, args, kwargs, desc):
 
 def dict_method(ex, st, recv, ty, a, meth, args, kwargs, desc):
     dom, valf = st.field('dom'), st.field('val')
-    d, v = z3.Select(dom, a), z3.Select(valf, a)
+    d, v = st.sel('dom', a), st.sel('val', a)
     if meth == 'get' and 1 <= len(args) <= 2:
         k = args[0]
         default = args[1] if len(args) == 2 else none_v()
@@ -408,7 +457,7 @@ def dict_method(ex, st, recv, ty, a, meth, args, kwargs, desc):
 
 def set_method(ex, st, recv, ty, a, meth, args, kwargs, desc):
     dom = st.field('dom')
-    d = z3.Select(dom, a)
+    d = st.sel('dom', a)
     if meth == 'add' and len(args) == 1:
         ex.check_elem_type(st, args[0], ty.k, f'type:elem@{desc}')
         st.set_field('dom', z3.Store(dom, a, z3.Store(d, args[0].t, True)))
@@ -431,11 +480,11 @@ def set_method(ex, st, recv, ty, a, meth, args, kwargs, desc):
         o = args[0]
         x = z3.Const('sx', S.PyObj())
         if o.ty.kind in ('set', 'dict'):
-            od = z3.Select(dom, S.addr(o.t))
+            od = st.sel('dom', S.addr(o.t))
             new = z3.Lambda([x], z3.Or(z3.Select(d, x), z3.Select(od, x)))
         else:
             seq, et = seq_of_value(ex, o, st, desc)
-            new = z3.Lambda([x], z3.Or(z3.Select(d, x), z3.Contains(seq, z3.Unit(x))))
+            new = z3.Lambda([x], z3.Or(z3.Select(d, x), S.member(seq, x)))
         st.set_field('dom', z3.Store(dom, a, new))
         return none_v()
     raise Unsupported(f'set.{meth}: {desc}')
